@@ -601,6 +601,10 @@ TAGS = ["t", "T", "t_", "t%", "%", "_", "", "é", "É", "x y", "a", "b", "c", "c
 URI_GOOD = ["PYRO:obj@host:1", "PYRO:o2@localhost:9090", "PYRO:Pyro.NameServer@h:9090", "PYRO:o@./u:/tmp/sock",
             "PYRONAME:x", "PYRO:O@HOST:1", "PYRO:obj_1@h-1.example.org:65535", "PYRO:é@h:2", "PYROMETA:a,b"]
 URI_BAD = ["", "bogus", "PYRO:", "http://x/y", "PYRO:o@h", "PYRO:o@h:x", " PYRO:o@h:1", "pyro:o@h:1"]
+# numeric-looking texts (integer / real literals in several spellings): a storage that gives its columns a numeric
+# affinity would store them as numbers ('007', '7', '7.0' collapse, '1e2' becomes 100, keys come back as int)
+NUMERIC = ["7", "007", "7.0", "7.", "07.00", "1e2", "100", "1E2", "-1", "-1.0", "+5", "5", "0x10", "16", " 7", "7 ", "\u0661",
+           "0", "00", "-0", "0.0", ".5", "0.5", "1_0", "10", "9007199254740993", "1e400", "nan", "inf", "7a", "7.0.0"]
 REGEX_FIXED = [".", ".*", "a", "A", "[aA]", "a|b", "(", "[", "*", "a_", "%", "(?i)a", "\\w+", "^$", "a.", "\\.", "[^a]",
                ".*_", "(a", "a{2", "\\", "Pyro", "Pyro\\.NameServer", "(?i)pyro\\..*", ".*Server$", "\\d", "é", "(?i)é"]
 
@@ -653,8 +657,14 @@ def gen_history(rng, pools, maxops=30):
         uni.append("".join(rng.choice(FRAGS) for _ in range(rng.choice([0, 1, 2, 3]))))
     if rng.random() < 0.6:
         uni += [NS_NAME] + rng.sample(_variants(rng, NS_NAME), 3)
+    numeric = rng.random() < 0.3
+    if numeric:
+        # a universe of numeric-looking names (and some ordinary ones), numeric-looking tags
+        uni = rng.sample(NUMERIC, rng.randint(4, 9)) + uni[:rng.randint(0, 3)]
     uni = list(dict.fromkeys(uni))
     tags = rng.sample(TAGS, rng.randint(2, 5))
+    if numeric or rng.random() < 0.15:
+        tags = rng.sample(NUMERIC, rng.randint(2, 5)) + tags[:rng.randint(0, 2)]
 
     def name():
         return rng.choice(uni) if rng.random() < 0.93 else "".join(rng.choice(FRAGS) for _ in range(rng.randint(0, 2)))
